@@ -777,6 +777,14 @@ fn scenario_lines(sc: &str) -> Result<Violations, String> {
     let (mut c, mut rx) = Client::new_empty_and_receiver();
     let auth = sc.starts_with("A:");
     let line = if auth { &sc[2..] } else { sc };
+    // LONG|<prefix>|<unit>|<n>  stands for  <prefix> followed by <unit> repeated n times (long lines with multi-byte characters at every alignment)
+    let expanded: String;
+    let line = if line.starts_with("LONG|") {
+        let p: Vec<&str> = line.splitn(4, '|').collect();
+        if p.len() != 4 { return Err("bad LONG line".into()); }
+        expanded = format!("{}{}", p[1], p[2].repeat(p[3].parse::<usize>().map_err(|_| "bad count")?));
+        expanded.as_str()
+    } else { line };
     if auth { run_cmd(&w, &mut c, &mut rx, "auth u p"); run_cmd(&w, &mut c, &mut rx, "use-db d tok"); }
     let out = catch_unwind(AssertUnwindSafe(|| run_cmd(&w, &mut c, &mut rx, line)));
     chk(&mut v, "C10.safety", out.is_ok());
@@ -1278,6 +1286,11 @@ fn all_lines_scenarios() -> Vec<String> {
     out.sort(); out.dedup();
     // an administrator may legitimately change $$token, after which the probe's login would fail: not a crash
     out.retain(|l| !(l.starts_with("A:") && l.contains("$$token")));
+    // long lines: ASCII padding of 0..3 bytes, then a multi-byte character repeated, so that every power-of-two byte offset falls inside a character for some of them
+    for unit in ["é", "日", "😀", "x"] { for pad in ["", "a", "ab", "abc"] { for n in [40usize, 100, 300, 600, 1100, 2100, 4200, 33000] {
+        out.push(format!("LONG|set k{} |{}|{}", pad, unit, n)); out.push(format!("A:LONG|set k{} |{}|{}", pad, unit, n));
+        out.push(format!("LONG|get {}|{}|{}", pad, unit, n));
+    } } }
     out.retain(|l| { let b = l.trim_start_matches("A:"); !(b.starts_with("election") && l.starts_with("A:")) && !b.starts_with("join") && !b.starts_with("leave") && !b.starts_with("set-primary") && !b.starts_with("set-secoundary") && !b.starts_with("replicate-since") && !(b.starts_with("debug") && l.starts_with("A:")) });
     out
 }
